@@ -465,10 +465,12 @@ func c05interp() *fast.Interp {
 	return c05ir
 }
 
-func c05runReal(prog []*sx) string {
+func c05runReal(prog []*sx) string { return c05runRealSrc(c05source(prog, "f")) }
+
+func c05runRealSrc(src string) string {
 	ir := c05interp()
 	c05trace = c05trace[:0]
-	if _, err := evalSrc(ir, c05source(prog, "f")); err != "" {
+	if _, err := evalSrc(ir, src); err != "" {
 		c05ir = nil // a failed declaration may leave the interpreter in a partial state
 		return "cerr " + err
 	}
@@ -512,11 +514,19 @@ func c05parseOp(op string) (string, []*sx) {
 	return f, parseSx(src)
 }
 
+func c05opSource(op, fname string) string {
+	if strings.HasPrefix(op, "gosrc ") {
+		return c05srcSource(c05srcDecode(op[6:]), fname)
+	}
+	_, prog := c05parseOp(op)
+	return c05source(prog, fname)
+}
+
 func c05prepare(ops []string) {
 	var progs []string
 	seen := map[string]bool{}
 	for _, op := range ops {
-		if f, _ := c05parseOp(op); f == "prog" && !seen[op] {
+		if f, _ := c05parseOp(op); (f == "prog" || f == "gosrc") && !seen[op] {
 			seen[op] = true
 			progs = append(progs, op)
 		}
@@ -532,8 +542,7 @@ func c05prepare(ops []string) {
 		decls.WriteString("var emitF func(int, int)\nfunc emit(tag, v int) { emitF(tag, v) }\n")
 		body.WriteString("n := 0\nemitF = func(tag, v int) { n++; if n > 4000 { panic(\"emit budget exceeded\") }; emit(fmt.Sprintf(\"%d:%d\", tag, v)) }\n")
 		for k, op := range progs[i:j] {
-			_, prog := c05parseOp(op)
-			decls.WriteString(c05source(prog, fmt.Sprintf("f%d", k)))
+			decls.WriteString(c05opSource(op, fmt.Sprintf("f%d", k)))
 			fmt.Fprintf(&body, "func() { n = 0; emit(\"#P %d\"); defer func() { if e := recover(); e != nil { emit(fmt.Sprint(\"PANIC \", e)) } }(); a, b, c, d := f%d(); emit(fmt.Sprintf(\"R %%d,%%d,%%d,%%d\", a, b, c, d)) }()\n", k, k)
 		}
 		snips = append(snips, Snippet{Decls: decls.String(), Body: body.String()})
@@ -582,6 +591,20 @@ func c05prepare(ops []string) {
 
 func c05exec(op string) Result {
 	f, prog := c05parseOp(op)
+	if f == "gosrc" {
+		body := c05srcDecode(op[6:])
+		out := c05runRealSrc(c05srcSource(body, "f"))
+		key := c05srcKey(body)
+		res := Result{Out: "unmodelled", Tags: strings.Split(strings.TrimPrefix(key, "unmodelled-construct:"), "+"), Nontrivial: true}
+		want, ok := c05oracle[op]
+		if !ok {
+			res.Viol, res.Key = "no compiled-Go oracle output: "+truncate(c05oracleErr, 1500), "oracle-unavailable"
+		} else if out != want {
+			res.Viol = fmt.Sprintf("gomacro: %s ; compiled Go: %s ; source:\n%s", truncate(out, 400), truncate(want, 400), c05srcSource(body, "f"))
+			res.Key = key
+		}
+		return res
+	}
 	if f != "prog" {
 		return Result{Out: "bad-op"}
 	}
